@@ -80,7 +80,7 @@ static std::vector<Seed> seeds(bool thorough) {
     if (thorough) { Mesh m = bipyramid(); std::vector<unsigned> p = {4, 0, 3, 1, 2}; m = renumbered(m, p); m.name = "bipyramid_renumbered"; add(m); }
     return s;
 }
-static const double L_MIN = 0.5, L_MAX = 1.5;
+static double L_MIN = 0.5, L_MAX = 1.5;   // the scale block of C11 moves the band together with the mesh
 
 static cell_type_param_ptr g_type;
 static cell_ptr fresh_cell(const sc::Mesh& m) {
